@@ -1,4 +1,4 @@
-import Proofs.C06History
+import Proofs.C06AsIs
 /-!
 # C06 — ragged-array writes keep all views coherent over any operation history
 
@@ -67,7 +67,7 @@ a 2-d index has one of the forms of the tuple branch -/
 def Valid (s : State α) : Op α → Prop
   | .iop2 _ o => o.map List.length = s.lengths
   | .binop2 _ o => o.map List.length = s.lengths
-  | .setMask mask _ => MaskAgree Cfg.fixed s mask
+  | .setMask mask _ => mask.map List.length = s.lengths
   -- `append` starts with `if len(self._data) == 0: self.__init__(values)`: an array whose rows are
   -- all empty is *replaced* by the appended rows (no repair proposed; outside the grammar)
   | .append _ _ => s.data ≠ []
@@ -77,7 +77,7 @@ def Valid (s : State α) : Op α → Prop
 instance (s : State α) [DecidableEq α] : (op : Op α) → Decidable (Valid s op)
   | .iop2 _ o => inferInstanceAs (Decidable (o.map List.length = s.lengths))
   | .binop2 _ o => inferInstanceAs (Decidable (o.map List.length = s.lengths))
-  | .setMask mask _ => inferInstanceAs (Decidable (MaskAgree Cfg.fixed s mask))
+  | .setMask mask _ => inferInstanceAs (Decidable (mask.map List.length = s.lengths))
   | .append _ _ => inferInstanceAs (Decidable (s.data ≠ []))
   | .appendFlat _ => inferInstanceAs (Decidable (s.data ≠ []))
   | .setElem _ _ _ | .viewWrite _ _ _ | .setRow _ _ | .setRows _ _ _ | .setIntSlice _ _ _
@@ -94,7 +94,7 @@ theorem inScope_fixed (s : State α) (op : Op α) (h : Coherent s) (hv : Valid s
   | setIntSlice i sl v => trivial
   | set2d r c v => exact ⟨idxAgree_fixed Cfg.fixed rfl h r c, Or.inl rfl⟩
   | setPaired r c v => exact Or.inl rfl
-  | setMask mask v => exact ⟨hv, Or.inl rfl⟩
+  | setMask mask v => exact ⟨maskAgree_of_lengths Cfg.fixed h mask hv (Or.inl rfl), Or.inl rfl⟩
   | append vs form => exact hv
   | appendFlat v => exact ⟨rfl, hv⟩
   | iop f => exact Or.inr rfl
@@ -103,6 +103,48 @@ theorem inScope_fixed (s : State α) (op : Op α) (h : Coherent s) (hv : Valid s
   | binop f => exact Or.inr rfl
   | binop2 g o => exact ⟨hv, Or.inr rfl⟩
   | copyCtor viaFlat np => exact Or.inr (Or.inr rfl)
+
+/-- On the unchanged tree a mask assignment is in scope as soon as the mask has the row structure
+of the array and at least one `True` cell (`where` + index conversion address exactly the `True`
+cells: `maskAgree_of_lengths`). -/
+theorem setMask_inScope_asIs (cfg : Cfg) (s : State α) (mask : List (List Bool)) (v : Val α)
+    (h : Coherent s) (hlen : mask.map List.length = s.lengths)
+    (htrue : (whereMask mask).isEmpty = false) (hv : ValOK cfg v) :
+    InScope cfg s (.setMask mask v) :=
+  ⟨maskAgree_of_lengths cfg h mask hlen (Or.inr htrue), hv⟩
+
+/-- **The unchanged tree on plain 2-d indices.**  `a[r, c] = v` and `a[r, c] ⊕= k` are in scope for
+EVERY variant of the code (in particular `Cfg.asIs`) when the row selector is a list of row numbers
+or a slice with positive step, start ≥ -len and stop ≤ len, the column selector is an integer, a
+non-empty list of integers or a slice with positive step and non-negative start, at least one row
+is selected and (column slice) every selected row has a selected column: `PlainIdx`.
+This is exactly the complement of the index classes of the known findings `set2d-*`. -/
+theorem set2d_inScope_plain (cfg : Cfg) (s : State α) (r : Sel) (c : CSel) (v : Val α)
+    (h : Coherent s) (hp : PlainIdx s.lengths r c) (hv : ValOK cfg v) :
+    InScope cfg s (.set2d r c v) :=
+  ⟨idxAgree_plain cfg h r c hp, hv⟩
+
+theorem iopAt_inScope_plain (cfg : Cfg) (s : State α) (r : Sel) (c : CSel) (f : α → α)
+    (h : Coherent s) (hp : PlainIdx s.lengths r c)
+    (hn : cfg.rowViewsFix = true ∨ noRows cfg s.lengths.length r = false) :
+    InScope cfg s (.iopAt r c f) :=
+  ⟨idxAgree_plain cfg h r c hp, hn⟩
+
+/-- the unchanged hand-written slice arithmetic equals CPython's `slice.indices` on plain slices -/
+theorem asIs_slices_agree (n l : Nat) (rs cs : PySlice) (hr : PlainRowSlice n rs) (hc : PlainColSlice cs) :
+    sliceToListAsIs rs n = specRowNums n (.slice rs) ∧ colsAsIs cs l = colsPy cs l :=
+  ⟨sliceToListAsIs_plain n rs hr, colsAsIs_plain l cs hc⟩
+
+-- non-vacuity: `a[-2:2, 1:] = …` on rows of lengths 2 and 3
+example : PlainIdx [2, 3] (.slice ⟨some (-2), some 2, none⟩) (.slice ⟨some 1, none, some 2⟩) :=
+  plainIdx_of_B _ _ _ (by decide)
+example : PlainIdx [2, 3] (.list [-1, 0]) (.slice ⟨none, some (-1), none⟩) :=
+  plainIdx_of_B _ _ _ (by decide)
+-- … and the defect regions are outside
+example : plainIdxB [2, 3] (.slice ⟨none, none, none⟩) (.slice ⟨some (-1), none, none⟩) = false := by decide
+example : plainIdxB [2, 3] (.slice ⟨none, none, none⟩) (.slice ⟨some 2, none, none⟩) = false := by decide
+example : plainIdxB [2, 3] (.slice ⟨none, some 3, none⟩) (.int 0) = false := by decide
+example : plainIdxB [2, 3] (.slice ⟨none, none, some (-1)⟩) (.int 0) = false := by decide
 
 /-- the full statement of *step_refines* for a variant of the code (not asserted in general) -/
 def C06_step_refines_full (cfg : Cfg) : Prop :=
@@ -224,12 +266,19 @@ theorem history_refines_partial (cfg : Cfg) (s : State α) (ops : List (Op α)) 
   ⟨h1, h2.1⟩
 
 /-- every operation of the history satisfies its own guards at the state it is applied to -/
-def AllValid : State α → List (Op α) → Prop
+def AllValidC (cfg : Cfg) : State α → List (Op α) → Prop
   | _, [] => True
   | s, op :: ops => Valid s op ∧
-      (match step Cfg.fixed s op with
-        | .ok (s', _) => AllValid s' ops
-        | .error _ => AllValid s ops)
+      (match step cfg s op with
+        | .ok (s', _) => AllValidC cfg s' ops
+        | .error _ => AllValidC cfg s ops)
+
+abbrev AllValid (s : State α) (ops : List (Op α)) : Prop := AllValidC Cfg.fixed s ops
+
+/-- the full statement of *history_refines* for a variant of the code -/
+def C06_history_refines_full (cfg : Cfg) : Prop :=
+  ∀ (s : State Int) (ops : List (Op Int)), Inv s → AllValidC cfg s ops →
+    (run cfg s ops).array = specRun s.array ops ∧ Coherent (run cfg s ops)
 
 theorem allInScope_fixed (ops : List (Op α)) : ∀ (s : State α), Inv s → AllValid s ops →
     AllInScope Cfg.fixed s ops := by
@@ -273,6 +322,17 @@ def decAllInScope [DecidableEq α] (cfg : Cfg) :
 
 instance [DecidableEq α] (cfg : Cfg) (ops : List (Op α)) (s : State α) :
     Decidable (AllInScope cfg s ops) := decAllInScope cfg ops s
+
+example : C06_history_refines_full Cfg.fixed := fun s ops h hv => history_refines_fixed s ops h hv
+
+/-- **history_refines is false on the unchanged tree**: `a[:, 1:] = 7` on `[[1], [2, 3]]` raises and
+leaves the array as it was, the list of rows becomes `[[1], [2, 7]]` -/
+theorem history_refines_counterexample : ¬ C06_history_refines_full Cfg.asIs := by
+  intro h
+  have := (h ragged0 [.set2d (.slice all_) (.slice ⟨some 1, none, none⟩) (.scalar 7)] (by decide)
+    ⟨trivial, by split <;> trivial⟩).1
+  revert this
+  decide
 
 -- non-vacuity: a three-step history on the unchanged tree, in scope at every step
 example : AllInScope Cfg.asIs ragged0
